@@ -89,6 +89,10 @@ def run(v, prop, tier):
                 v.drift.append("step rule '%s' rejects a step on which both implementations agree (specification gap): %s" % (what["r"].get("name"), detail[:300]))
             else:
                 v.drift.append("%s differs outside %s's projection: %s" % (sorted(comps), prop, detail[:300]))
+    # the sample list is bounded: a component that counted mismatches must be reported even if its samples were crowded out
+    for c in sorted(OWN[prop]):
+        if tot.get(c, 0) > 0 and not any(x[0] == "trace." + c for x in v.violations):
+            v.candidate("trace." + c, "%d lines differ in component '%s' (no sample kept)" % (tot[c], c), {"seed": seed(), "cmd": "VERIF_SEED=%d bin/check %s %s" % (seed(), prop, tier)})
     if lines != rep["events"]:
         raise InfraError("TLC consumed %d lines, recorder wrote %d" % (lines, rep["events"]))
     for need in ("steps", "gascont", "constgas", "memgas", "callret", "results", "nodes", "refused", "trees", "forkgas", "refunds", "sstorerule", "callrule", "refundrule", "aclrule"):
